@@ -37,7 +37,11 @@ def catalogue(rng):
     """one random malformed call: dict(target, path, args, kwargs, expect)"""
     T = rng.choice
     fam = T(["bqm", "bqm", "bqm", "bqmarr", "bqmarr", "bqmvec", "bqmvec", "qm", "qm", "qmarr", "cqm", "cqm", "dqm", "dqm",
-             "dqm", "dqmvec"])
+             "dqm", "dqmvec", "reduce", "reduce", "fresh", "fresh", "fresh"])
+    if fam == "reduce":
+        return reduce_call(rng)
+    if fam == "fresh":
+        return fresh_call(rng)
     if fam == "bqm":
         t = T(BQMS)
         k = T(["get_linear", "get_quadratic", "get_quadratic2", "remove_variable", "remove_interaction", "selfloop",
@@ -261,7 +265,10 @@ def catalogue(rng):
         k = T(["con_unknown", "remove_con", "fix", "fix2", "addvar", "addcon_dup", "addcon_bad", "sense", "setobj", "bounds",
                "relabel_con", "discrete", "discrete2", "lhs_unknown", "lhs_selfloop", "lhs_bias", "violations", "substitute",
                "from_other", "weight", "lhs_remove", "obj_unknown", "lhs_energy", "cqm_chvt", "cqm_flip", "cqm_remove_variable",
-               "lhs_quad_unknown", "lhs_iter", "lhs_info"])
+               "lhs_quad_unknown", "lhs_iter", "lhs_info", "substitute_real"])
+        if k == "substitute_real":
+            # no argument at all: whatever it does with a REAL self-loop, a raise must leave the model as it was
+            return dict(target="cqmreal", path=["substitute_self_loops"], args=[], expect="any")
         if k == "con_unknown":
             return dict(target=t, path=["constraints", ["item", T(UNKNOWN[:4])]], args=None, expect="raise")
         if k == "remove_con":
@@ -487,6 +494,184 @@ def Fraction_s(x):
     return Fraction(float(x))
 
 
+FN = [["#", "fn", "max"], ["#", "fn", "min"], ["#", "fn", "add"], ["#", "fn", "mul"], ["#", "fn", "first"], ["#", "lambda"]]
+
+
+def reduce_call(rng):
+    c = _reduce_call(rng)
+    c["want_before"] = True          # the child sends the dump along: judge() recomputes the value from it
+    c["reduce"] = True
+    return c
+
+
+def _reduce_call(rng):
+    """reduce_linear / reduce_neighborhood / reduce_quadratic and the aggregations of the linear, quadratic and adj[v]
+    views built on them (max, min, sum), on the inputs their empty-case guards exist for: a degree-0 variable inside a
+    model that HAS interactions (in the middle and at the end of the index range), a model with variables but no
+    interaction, a model with no variable; with and without initializer / default.  Nothing here may crash or change
+    the model; without initializer the empty cases must raise."""
+    T = rng.choice
+    form = T(["nb", "nb", "nb", "adj", "adj", "lin", "quad", "linview", "quadview"])
+    iso_t = ["bqmiso", "bqmiso32", "bqmisoobj", "bqmisos", "qmiso"]
+    if form == "nb":
+        t = T(iso_t + ["bqmlin"])
+        v = T(["iso", "end", "iso", "a" if t.startswith("bqm") else "x", "b" if t.startswith("bqm") else "s"])
+        if t == "bqmlin":
+            v = T(["a", "b"])
+        empty = v in ("iso", "end") or t == "bqmlin"
+        if rng.random() < 0.5:
+            return dict(target=t, path=["reduce_neighborhood"], args=[v, T(FN)], expect="raise" if empty else "any")
+        return dict(target=t, path=["reduce_neighborhood"], args=[v, T(FN), T([0, 1.5, -2])], expect="ok")
+    if form == "adj":
+        t = T(iso_t + ["bqmlin"])
+        v = T(["iso", "end"]) if t != "bqmlin" else T(["a", "b"])
+        agg = T(["max", "min", "sum"])
+        kw = {"default": T([0, -1.5])} if agg != "sum" and rng.random() < 0.5 else {}
+        args = [T([0, 2.5])] if agg == "sum" and rng.random() < 0.5 else []
+        return dict(target=t, path=["adj", ["item", v], agg], args=args, kwargs=kw,
+                    expect="ok" if (kw or agg == "sum") else "raise")
+    if form == "lin":
+        t = T(iso_t + ["bqmempty", "qmempty", "bqmlin"])
+        init = rng.random() < 0.5
+        return dict(target=t, path=["reduce_linear"], args=[T(FN)] + ([T([0, 1.5])] if init else []),
+                    expect="ok" if init else ("raise" if t in ("bqmempty", "qmempty") else "any"))
+    if form == "quad":
+        t = T(iso_t + ["bqmempty", "qmempty", "bqmlin"])
+        init = rng.random() < 0.5
+        return dict(target=t, path=["reduce_quadratic"], args=[T(FN)] + ([T([0, 1.5])] if init else []),
+                    expect="ok" if init else ("raise" if t in ("bqmempty", "qmempty", "bqmlin") else "any"))
+    t = T(iso_t + ["bqmempty", "qmempty", "bqmlin"])
+    agg = T(["max", "min", "sum"])
+    kw = {"default": T([0, -1.5])} if agg != "sum" and rng.random() < 0.5 else {}
+    view = "linear" if form == "linview" else "quadratic"
+    empty = t in ("bqmempty", "qmempty") or (view == "quadratic" and t == "bqmlin")
+    return dict(target=t, path=[view, agg], args=[], kwargs=kw, expect="any" if (kw or agg == "sum" or not empty) else "raise")
+
+
+FRESH = ["zz", 17, ["#", "tuple", ["n", 0]], "new"]
+INVALID_LABEL = [NONE, [1, 2], ["#", "dict", []], ["#", "set", [1]]]
+
+
+def fresh_call(rng):
+    """invalid calls that carry a FRESH (unknown, hashable) label in a position where the entry point creates variables
+    on the fly - so a wrong order of 'validate' and 'append' shows as a variable / resized model left behind by a call
+    that raised.  py_fresh classifies the shape: selfloop (the same fresh label twice), then_invalid (fresh label
+    followed by an invalid second label / bias), bulk (an iterable whose later item is malformed), addvar (new variable
+    with wrong vartype / bounds / case count), model (a whole model with a fresh variable and a conflicting one)."""
+    T = rng.choice
+    z = T(FRESH)
+    cls = T(["bqm", "bqm", "bqm", "qm", "cqm", "cqm", "dqm"])
+    if cls == "bqm":
+        t = T(BQMS)
+        k = T(["selfloop", "selfloop", "then_invalid", "then_badbias", "bulk_quad", "bulk_lin", "addvar", "lineq", "contract", "relabel"])
+        if k == "selfloop":
+            return dict(target=t, path=[T(["add_quadratic", "set_quadratic"])], args=[z, z, T([1.0, 0.0, -2.5])], expect="raise",
+                        fresh="selfloop")
+        if k == "then_invalid":
+            a = [z, T(INVALID_LABEL)]
+            if rng.random() < 0.5:
+                a.reverse()
+            # the pure-Python object-dtype class takes any hashable label, None included
+            return dict(target=t, path=[T(["add_quadratic", "set_quadratic"])], args=a + [1.0],
+                        expect="any" if (t == "bqmobj" and NONE in a) else "raise", fresh="then_invalid")
+        if k == "then_badbias":
+            two = rng.random() < 0.6
+            return dict(target=t, path=[T(["add_quadratic", "set_quadratic"]) if two else T(["add_linear", "set_linear"])],
+                        args=([z, T(["a", T(FRESH)])] if two else [z]) + [T(BAD_SCALARS)], expect="any" if t == "bqmobj" else "raise",
+                        fresh="then_badbias")
+        if k == "bulk_quad":
+            bad = T([[[tup(z, "a"), 1.0], [tup("a", "a"), 1.0]], [[tup(z, z), 1.0]], [[tup(z, "b"), 1.0], [tup("a",), 1.0]]])
+            return dict(target=t, path=["add_quadratic_from"], args=[["#", "dict", bad]], expect="raise", fresh="bulk")
+        if k == "bulk_lin":
+            bad = T([[[z, 1.0], ["a"]], [[z, 1.0], ["a", 1.0, 2.0]], [[z, 1.0], [T(INVALID_LABEL), 1.0]]])
+            return dict(target=t, path=["add_linear_from"], args=[bad], expect="any" if t == "bqmobj" else "raise", fresh="bulk")
+        if k == "addvar":
+            return dict(target=t, path=["add_variable"], args=[T(INVALID_LABEL[1:]), 1.0], expect="raise", fresh="addvar")
+        if k == "lineq":
+            bad = T([[[z, 1.0], ["a"]], [[z, 1.0], ["a", "x"]], [[z, 1.0], [T(INVALID_LABEL[1:]), 1.0]]])
+            return dict(target=t, path=["add_linear_equality_constraint"], args=[bad, 1.0, 0.0], expect="raise", fresh="bulk")
+        if k == "contract":
+            a = [z, "a"] if rng.random() < 0.5 else ["a", z]
+            return dict(target=t, path=["contract_variables"], args=a, expect="raise", fresh="then_invalid")
+        return dict(target=t, path=["relabel_variables"], args=[["#", "dict", [["a", z], ["b", z]]]], kwargs={"inplace": True}, expect="raise",
+                    fresh="relabel")
+    if cls == "qm":
+        t = T(["qm", "qm32"])
+        k = T(["selfloop", "quad", "lin", "addvar_bounds", "addvar_vt", "addvars", "bulk_quad", "update"])
+        if k == "selfloop":
+            return dict(target=t, path=[T(["add_quadratic", "set_quadratic"])], args=[z, z, 1.0], expect="raise", fresh="selfloop")
+        if k == "quad":
+            a = [z, T(["x", "i", T(INVALID_LABEL)])]
+            if rng.random() < 0.5:
+                a.reverse()
+            return dict(target=t, path=[T(["add_quadratic", "set_quadratic"])], args=a + [1.0], expect="raise", fresh="then_invalid")
+        if k == "lin":
+            return dict(target=t, path=[T(["add_linear", "set_linear"])], args=[z, T([1.0] + BAD_SCALARS)], expect="raise", fresh="then_badbias")
+        if k == "addvar_bounds":
+            vt = T(["INTEGER", "REAL"])
+            lb, ub = T([(5, 1), (0.5, 0.75), (NAN, 1), (1, NAN), ("x", 1), (0, "y"), (INF, 1), (1, ["#", "-inf"])])
+            if vt == "REAL" and (lb, ub) == (0.5, 0.75):
+                lb, ub = 3, 2
+            odd = any(isinstance(b, list) for b in (lb, ub))      # non-finite bounds: accepted by design of this catalogue ("any")
+            return dict(target=t, path=["add_variable"], args=[vt, z], kwargs={"lower_bound": lb, "upper_bound": ub},
+                        expect="any" if odd else "raise", fresh="addvar")
+        if k == "addvar_vt":
+            return dict(target=t, path=["add_variable"], args=[T(["BOGUS", 5, NONE, "binary "]), z], expect="raise", fresh="addvar")
+        if k == "addvars":
+            return dict(target=t, path=["add_variables_from"], args=[T(["SPIN", "INTEGER", "REAL"]), [z, "x"]], expect="raise", fresh="bulk")
+        if k == "bulk_quad":
+            bad = T([[["x", "i", 1.0], [z, "x", 1.0]], [["x", "i", 1.0], ["x", "i"]], [["x", "s", 1.0], ["x", "x", 1.0]]])
+            return dict(target=t, path=["add_quadratic_from"], args=[bad], expect="raise", fresh="bulk")
+        return dict(target=t, path=["update"], args=[["#", "bqm", "SPIN"]], expect="any", fresh="model")
+    if cls == "cqm":
+        t = "cqm"
+        k = T(["addvar_bounds", "addvar_vt", "addvar_clash", "con_iter", "con_model", "obj_model", "obj_iter", "discrete", "lhs_selfloop", "lhs_quad",
+               "con_weight"])
+        lhs = ["constraints", ["item", T(["c0", "c1", "soft"])], "lhs"]
+        if k == "addvar_bounds":
+            lb, ub = T([(5, 1), (NAN, 1), ("x", 1), (0, "y"), (7, -7)])
+            return dict(target=t, path=["add_variable"], args=["INTEGER", z], kwargs={"lower_bound": lb, "upper_bound": ub},
+                        expect="any" if isinstance(lb, list) else "raise", fresh="addvar")
+        if k == "addvar_vt":
+            return dict(target=t, path=["add_variable"], args=[T(["BOGUS", 5, NONE]), z], expect="raise", fresh="addvar")
+        if k == "addvar_clash":
+            return dict(target=t, path=["add_variables"], args=[T(["SPIN", "INTEGER"]), [z, "x"]], expect="raise", fresh="bulk")
+        if k == "con_iter":
+            bad = T([[[z, 1.0]], [["x", 1.0], [z, "x", 1.0]], [["x", 1.0], ["x"]], [["x", "y", 1.0], ["x", "x", "x", 1.0]]])
+            return dict(target=t, path=["add_constraint_from_iterable"], args=[bad, T(["<=", "==", ">="])], kwargs={"label": T(["nc", z])},
+                        expect="raise", fresh="bulk")
+        if k == "con_model":
+            # a model over a fresh variable q and the known variable a... the CQM's x is BINARY: a SPIN model over it conflicts
+            vt, sense = T([("SPIN", "<="), ("SPIN", "<<"), ("BINARY", "<<"), ("BINARY", "!="), ("BINARY", 5), ("SPIN", "==")])
+            return dict(target=t, path=["add_constraint"], args=[["#", "bqmx", vt], sense], kwargs={"label": "nc"}, expect="raise", fresh="model")
+        if k == "obj_model":
+            return dict(target=t, path=["set_objective"], args=[["#", "bqmx", "SPIN"]], expect="raise", fresh="model")
+        if k == "obj_iter":
+            return dict(target=t, path=["set_objective"], args=[[[z, 1.0]]], expect="raise", fresh="bulk")
+        if k == "discrete":
+            return dict(target=t, path=["add_discrete"], args=[T([[z, "i"], [z, "s"], [z, "d0"], [z, z]])], kwargs={"label": T(["dd", "c0"])},
+                        expect="any", fresh="bulk")
+        if k == "lhs_selfloop":
+            return dict(target=t, path=T([lhs, ["objective"]]) + [T(["add_quadratic", "set_quadratic"])], args=[z, z, 1.0], expect="raise", fresh="selfloop")
+        if k == "lhs_quad":
+            return dict(target=t, path=T([lhs, ["objective"]]) + ["add_quadratic"], args=[z, "x", 1.0], expect="raise", fresh="then_invalid")
+        return dict(target=t, path=["add_constraint_from_iterable"], args=[[["x", 1.0], ["y", 1.0]], "<="],
+                    kwargs={"label": z, "weight": T([-1, 0, "x"]), "penalty": T(["linear", "cubic"])}, expect="raise", fresh="addcon")
+    t = "dqm"
+    k = T(["addvar", "addvar", "quad", "quadcase", "lin", "lineq", "relabel"])
+    if k == "addvar":
+        return dict(target=t, path=["add_variable"], args=[T([0, -1, -5, "x", NONE, 1.5])], kwargs={"label": z}, expect="raise", fresh="addvar")
+    if k == "quad":
+        return dict(target=t, path=["set_quadratic"], args=[T(["u", z]), z, ["#", "dict", [[tup(0, 0), 1.0]]]], expect="raise", fresh="then_invalid")
+    if k == "quadcase":
+        return dict(target=t, path=["set_quadratic_case"], args=[T(["u", z]), 0, z, 0, 1.0], expect="raise", fresh="then_invalid")
+    if k == "lin":
+        return dict(target=t, path=[T(["set_linear_case", "get_linear_case"])], args=[z, 0] + [1.0], expect="raise", fresh="then_invalid")
+    if k == "lineq":
+        return dict(target=t, path=["add_linear_equality_constraint"], args=[[["u", 0, 1.0], [z, 0, 1.0]], 1.0, 0.0], expect="raise", fresh="bulk")
+    return dict(target=t, path=["relabel_variables"], args=[["#", "dict", [["u", z], ["v", z]]]], expect="raise", fresh="relabel")
+
+
 def gen_py_calls(rng, n):
     out = []
     for i in range(n):
@@ -596,8 +781,66 @@ def run_calls(calls, valgrind=False, per_call_timeout=10.0):
     return [results.get(c["id"], {"id": c["id"], "missing": True}) for c in calls], vg_notes
 
 
+def reduce_expected(call, before):
+    """the value a reduce_* call / view aggregation must return, recomputed from the dump the child took before the
+    call (None: not determined - order-dependent function over the whole quadratic view, or an exception is due)"""
+    import functools
+    from fractions import Fraction as Fr
+    path = [p for p in call["path"] if isinstance(p, str)]
+    name = path[-1]
+    args = call.get("args", [])
+    order = {v: i for i, v in enumerate(before["vars"])}
+    lin = [Fr(b) for _, b in before["lin"]]
+
+    def nb(v):
+        v = repr(v)
+        ent = [(order[w if u == v else u], Fr(b)) for u, w, b in before["quad"] if v in (u, w)]
+        return [b for _, b in sorted(ent)]
+    fns = {"max": max, "min": min, "add": lambda a, b: a + b, "mul": lambda a, b: a * b, "first": lambda a, b: a}
+    if name in ("max", "min", "sum"):
+        if path[0] == "adj":
+            vals = nb(call["path"][1][1])
+        elif path[0] == "linear":
+            vals = lin
+        else:
+            vals = [Fr(b) for _, _, b in before["quad"]]
+        if name == "sum":
+            return sum(vals, Fr(args[0]) if args else Fr(0))
+        if not vals:
+            d = call.get("kwargs", {}).get("default")
+            return None if d is None else Fr(d)
+        return (max if name == "max" else min)(vals)
+    if name == "reduce_neighborhood":
+        vals, rest = nb(args[0]), args[1:]
+    elif name == "reduce_linear":
+        vals, rest = lin, args
+    else:
+        vals, rest = [Fr(b) for _, _, b in before["quad"]], args
+    fn = rest[0]
+    if fn[1] == "lambda":
+        f = lambda a, b: Fr(0)
+    else:
+        f = fns[fn[2]]
+        if name == "reduce_quadratic" and fn[2] == "first":
+            return None
+    init = rest[1:]
+    if not vals and not init:
+        return None
+    return functools.reduce(f, vals, Fr(init[0])) if init else functools.reduce(f, vals)
+
+
 def judge(call, rec):
     """None when fine, else (reason, feature)"""
+    j = _judge(call, rec)
+    if j is None and call.get("reduce") and rec.get("exc") is None and rec.get("before") and (rec.get("res") or {}).get("num") is not None:
+        from fractions import Fraction as Fr
+        want = reduce_expected(call, rec["before"])
+        if want is not None and Fr(rec["res"]["num"]) != want:
+            return f"returned {rec['res']['num']} where the dumped biases give {want}", "value"
+    return j
+
+
+def _judge(call, rec):
     if rec.get("hang"):
         return "the call did not return within the time limit (hang)", "hang"
     if "crash" in rec:
@@ -651,8 +894,8 @@ SURFACE = {
     "cyqmbase.upper_bound": _cat(("qm", "upper_bound")),
     "cyqmbase.vartype": _cat(("qm", "vartype")),
     "cyqmbase.nbytes": _exempt("boolean flag only"),
-    "cyqmbase.reduce_linear": _exempt("takes a function and an initializer, no index / label / array"),
-    "cyqmbase.reduce_quadratic": _exempt("takes a function and an initializer, no index / label / array"),
+    "cyqmbase.reduce_linear": _cat(("bqm", "reduce_linear"), ("qm", "reduce_linear")),
+    "cyqmbase.reduce_quadratic": _cat(("bqm", "reduce_quadratic"), ("qm", "reduce_quadratic")),
     "cyqmbase.reduce_neighborhood": _cat(("bqm", "reduce_neighborhood"), ("qm", "reduce_neighborhood")),
     "cyqmbase.relabel_variables": _cat(("bqm", "relabel_variables")),
     "cyqmbase.remove_interaction": _cat(("bqm", "remove_interaction"), ("qm", "remove_interaction")),
